@@ -35,7 +35,10 @@ CFG = {"driver": "result", "p_retry": 30, "p_fail": 30, "timeouts": [None, None,
 
 
 def gen(tape, cfg):
-    return gen_spec(tape, dict(cfg, driver=tape.choice(["result", "finish"], "driver")))
+    spec = gen_spec(tape, dict(cfg, driver=tape.choice(["result", "finish"], "driver")))
+    # a quarter of the workflows end with a user-defined StopEvent subclass
+    spec["stop_subclass"] = tape.chance(25, 100, "stop-subclass?")
+    return spec
 
 
 async def scenario(world, spec):
